@@ -199,23 +199,26 @@ CHECKS = {
             "exploration (DFS re-execution under a controlled scheduler, "
             "source-line scheduling points) of command/run-thread overlaps",
             "coopsched",
-            "C04a: all reachable protocol states x 85 commands (8 plain "
+            "C04a: all reachable protocol states x 87 commands (10 plain "
             "commands at quiescence + start/run_up_to with a command issued "
             "from the run thread or from inside start() at 8 locations), "
             "each transition re-executed on a fresh real simulator and "
             "compared with the protocol reference (outcome, states, clock, "
             "trace, live run threads, refused => no notification) plus the "
-            "stream monitor; all raw plain sequences to depth 4 (5). C04b: 7 "
+            "stream monitor; all raw plain sequences to depth 4 (5). C04b: 10 "
             "scenarios (start/stop, resume-after-pause with a failing "
-            "handler, stop/step/start, cleanup and initialize racing the run, "
-            "back-to-back bounded runs, rapid start/stop) - every schedule "
-            "with <=1 (S1: 2; thorough 2, S1: 3) preemptions; invariants "
-            "I1-I6 at scheduler-decided quiescence.",
+            "handler or a handler-issued stop, stop/step/start, cleanup and "
+            "initialize racing the run, back-to-back bounded runs, "
+            "end_replication from the driver during the run, start while a "
+            "bounded run is inside a handler, rapid start/stop) - every "
+            "schedule with <=2 (some 1; thorough 2, S1: 3) preemptions; "
+            "invariants I1-I6 at scheduler-decided quiescence.",
             "Line-level scheduling points in simulator.py; a runnable run "
             "thread is not starved for 1 s; '?' cells accept refusal or "
-            "effect. 27 known-finding signatures (5 race families without a "
-            "small safe repair; keyed by scenario, invariant, final states "
-            "and preemption count) in known_findings.json."),
+            "effect. The race families found here (signatures keyed by "
+            "scenario, invariant, final states and preemption count) were "
+            "first recorded and later repaired in /repo with the explorer as "
+            "judge; no C04 known finding remains."),
     "C06": ("exploration",
             "exhaustive table of prior simulator histories x stochastic "
             "models x clocks; differential oracle: the replication after the "
